@@ -186,8 +186,10 @@ def parse_output(out):
             vals.append([int(x) for x in s.split(",") if x.strip()] if s else [])
         if "playback_src" not in r:
             r["playback_src"] = m.group(1)
+        r.setdefault("playback_srcs", [])
         if vals not in allv:
             allv.append(vals)
+            r["playback_srcs"].append(m.group(1))
     if allv:
         r["playback_vals"] = allv[0]
         r["playback_all"] = allv
